@@ -14,7 +14,7 @@ TLCW = os.path.join(VERIF, "bin", "tlcw")
 # seed -> (list of (family, count), set of rules that count as "caught", optional substring the info must contain)
 TABLE = {
     "C01": ([("bpReset", 150)], {"C01.data", "C01.clean_end", "C01.trailers"}, None),
-    "C01b": ([("mixA", 250), ("mixAd", 250)], {"C09.data_budget", "C06.progress"}, None),
+    "C01b": ([("mixA", 250), ("mixAd", 250)], {"C06.progress"}, None),   # not caught since C09.data_budget was withdrawn (DESIGN 11.15)
     "C02": ([("mixA", 250), ("flowBc", 200)], {"C02.stream_credit", "C02.conn_credit"}, None),
     "C02b": ([("mixA", 250), ("mixAd", 250)], {"C02.stream_credit"}, None),
     "C03": ([("flowBs", 200)], {"C03.stream_leak", "C03.conn_leak"}, None),
